@@ -159,6 +159,24 @@ def unified_cycle_check(schema_name: str | None, context: UnifiedCycleContext) -
     """Unified cycle detection that handles all cases."""
 
     if schema_name is None:
+        # Anonymous schemas cannot take part in named cycles, but they do consume recursion depth:
+        # cut them as well instead of exhausting the interpreter stack. They get one level of slack so
+        # that, when an anonymous wrapper (e.g. an allOf member holding a $ref) sits right at the limit,
+        # the named schema it leads to is the one replaced by a placeholder.
+        import os
+
+        anonymous_max_depth = int(os.environ.get("PYOPENAPI_MAX_DEPTH", context.max_depth)) + 1
+        if context.recursion_depth > anonymous_max_depth:
+            context.cycle_detected = True
+            anonymous_placeholder = IRSchema(
+                name=None,
+                type="object",
+                description=f"[Maximum recursion depth ({anonymous_max_depth - 1}) exceeded for anonymous schema]",
+                _max_depth_exceeded_marker=True,
+            )
+            return CycleDetectionResult(
+                True, CycleType.MAX_DEPTH, CycleAction.CREATE_PLACEHOLDER, placeholder_schema=anonymous_placeholder
+            )
         return CycleDetectionResult(False, None, CycleAction.CONTINUE_PARSING)
 
     # Check current state
